@@ -48,6 +48,7 @@ class AltRecPalette(PPRecordFmt.PPRecordPalette):
 
 
 PALETTES = {
+    "PPPalette": PrettyPrinter.PPPalette, "GHistPalette": akghist.GHistReport.GHistPalette,
     "red": RedTablePalette, "sub": SubTablePalette, "altpp": AltPPPalette,
     "altghist": AltGHistPalette, "altrec": AltRecPalette,
 }
@@ -262,7 +263,11 @@ def start_rendering(built, conf, mode):
     colors_conf = conf
     if pal:
         pcls = PALETTES[pal["cls"]]
-        if pal.get("obj"):
+        if pal.get("synced"):
+            # a palette object that follows the global configuration
+            palette = pcls(synced=True)
+            colors_conf = None
+        elif pal.get("obj"):
             palette = pcls(conf) if conf is not None else pcls()
             colors_conf = None
         else:
